@@ -21,6 +21,9 @@ const (
 
 func (r Result) String() string { return [...]string{"unsat", "sat", "unknown"}[r] }
 
+// SlowLog, when set, receives a line per query slower than 2 s.
+var SlowLog io.Writer
+
 type Stats struct {
 	Sat, Unsat, Unknown, Errors int
 	Time                        time.Duration
@@ -81,8 +84,15 @@ func (s *Solver) start() error {
 	s.dead = false
 	s.defined = map[int]bool{}
 	s.declFn = 0
-	s.send("(set-option :produce-models true)")
+	s.prelude()
 	return nil
+}
+
+func (s *Solver) prelude() {
+	if s.Name == "cvc5" {
+		s.send("(set-logic ALL)")
+	}
+	s.send("(set-option :produce-models true)")
 }
 
 func (s *Solver) Close() {
@@ -120,7 +130,7 @@ func (s *Solver) Reset() {
 		return
 	}
 	s.send("(reset)")
-	s.send("(set-option :produce-models true)")
+	s.prelude()
 	s.defined = map[int]bool{}
 	s.declFn = 0
 }
@@ -228,6 +238,47 @@ func (s *Solver) Check(extra ...*Term) Result {
 	return res
 }
 
+// CheckTimeout is Check with a wall-clock limit enforced by killing the solver
+// process; the caller must Reset() and re-assert its path condition when the
+// returned flag `killed` is true. Used for feasibility pruning where unknown = keep.
+func (s *Solver) CheckTimeout(d time.Duration, extra ...*Term) (res Result, killed bool) {
+	for _, e := range extra {
+		if e.IsFalse() {
+			return Unsat, false
+		}
+	}
+	for _, e := range extra {
+		s.define(e)
+	}
+	t0 := time.Now()
+	s.send("(push 1)")
+	for _, e := range extra {
+		if !e.IsTrue() {
+			s.send("(assert " + Ref(e) + ")")
+		}
+	}
+	s.send("(check-sat)")
+	done := make(chan []string, 1)
+	go func() { done <- s.readUntilMark() }()
+	var lines []string
+	select {
+	case lines = <-done:
+	case <-time.After(d):
+		if s.cmd != nil && s.cmd.Process != nil {
+			s.cmd.Process.Kill()
+		}
+		<-done
+		s.dead = true
+		s.LastErr = "feasibility query exceeded " + d.String()
+		s.account(Unknown, t0)
+		return Unknown, true
+	}
+	res = s.classify(lines)
+	s.send("(pop 1)")
+	s.account(res, t0)
+	return res, s.dead
+}
+
 // CheckModel is Check but, when sat, also returns values of vars (bits) before popping.
 func (s *Solver) CheckModel(vars []*Term, extra ...*Term) (Result, map[string]uint64) {
 	for _, e := range extra {
@@ -290,6 +341,32 @@ func (s *Solver) CheckModel(vars []*Term, extra ...*Term) (Result, map[string]ui
 	return res, model
 }
 
+// CheckModelTimeout is CheckModel bounded by a wall-clock limit (kills the solver
+// process when exceeded; the caller must then Reset and re-assert).
+func (s *Solver) CheckModelTimeout(d time.Duration, vars []*Term, extra ...*Term) (Result, map[string]uint64, bool) {
+	type out struct {
+		r Result
+		m map[string]uint64
+	}
+	done := make(chan out, 1)
+	go func() {
+		r, m := s.CheckModel(vars, extra...)
+		done <- out{r, m}
+	}()
+	select {
+	case o := <-done:
+		return o.r, o.m, s.dead
+	case <-time.After(d):
+		if s.cmd != nil && s.cmd.Process != nil {
+			s.cmd.Process.Kill()
+		}
+		<-done
+		s.dead = true
+		s.LastErr = "model query exceeded " + d.String()
+		return Unknown, nil, true
+	}
+}
+
 func keyOf(v *Term) string {
 	if v.Op == OpVar {
 		return v.Name
@@ -305,6 +382,9 @@ func (s *Solver) account(res Result, t0 time.Time) {
 	}
 	s.Stats.Queries++
 	s.Stats.Time += time.Since(t0)
+	if SlowLog != nil && time.Since(t0) > 2*time.Second {
+		fmt.Fprintf(SlowLog, "slow query %.1fs => %s\n", time.Since(t0).Seconds(), res)
+	}
 	switch res {
 	case Sat:
 		s.Stats.Sat++
